@@ -22,7 +22,7 @@ from contracts import c13_types, c13_views  # qualified-type models (Signal[T](.
 from contracts import c08_cleanup as EV  # event-stream models of visit_objects / _visit_referenced_objects
 from contracts.c05_format_cast import Built
 
-PROPS = ("C07",)
+PROPS = ("C07", "C08")
 QUAL = "cohdl._compiler.frontend._generate_ir:IrGenerator.convert_sequential"
 R, W = AccessFlags.READ, AccessFlags.WRITE
 
@@ -45,7 +45,10 @@ I.register_model(GI.IrGenerator.__dict__["code"], lambda it, self: self.fields["
 
 
 def _concurrent_ctor(it, args, kwargs):
-    return SObj(ir.Concurrent, __events__=args[1].fields["__events__"], __capture__=None) if False else SObj(ir.Concurrent, __events__=args[1].fields["__events__"])
+    c = SObj(ir.Concurrent, __events__=args[1].fields["__events__"])
+    if args[1] is getattr(it, "always_block", None):
+        it.always_block = c  # the hoisted block: the context that wraps the always expression's code
+    return c
 
 
 def _sequential_ctor(it, args, kwargs):
@@ -93,9 +96,42 @@ def spec_for(stream):
     def spec(sx, inp):
         if not expected_ok(stream):
             sx.reject()
-        return C.ANY
+        it = sx.it
+
+        def holds(res):
+            # accepted: every temporary of the always expression was written there.  The hoisted block is emitted OUTSIDE the
+            # process, so afterwards EVERY mention of such a temporary in it -- also as the run-time index in the reference path
+            # of another object ('ref' events) -- is a signal: the last visit of each event returned a Signal, not the Temporary
+            last = {}
+            for idx, kind, obj, result in it.replace_log:
+                last[idx] = (kind, result)
+            if len(last) != len(stream):
+                return False
+            for idx, (kind, result) in last.items():
+                q = result.cls if isinstance(result, SObj) else None
+                if not (isinstance(q, SCls) and it.base_kind(q) is Signal):
+                    return False
+            return True
+
+        return C.Pred(holds, "every temporary mentioned in the always expression (directly or in a reference path) is replaced by a signal")
 
     return spec
+
+
+def recording_model(refs):
+    def model(it, obj, operation, *a, **k):
+        if not (isinstance(obj, SObj) and "__events__" in obj.fields):
+            return None
+        mine = obj is it.always_block
+        for idx, (kind, o, acc) in enumerate(obj.fields["__events__"]):
+            if kind == "ref" and not refs:
+                continue
+            r = it.call(operation, [o, acc], {})
+            if mine:
+                it.replace_log.append((idx, kind, o, r))
+        return None
+
+    return model
 
 
 con = contract(QUAL, PROPS)
@@ -110,7 +146,48 @@ for st in STREAMS:
 
     def setup(it, ctx, args, env):
         it.case_blocks = list(args[0].fields["__blocks__"])
+        it.always_block = args[0].fields["__blocks__"][1]
+        it.replace_log = []
         it.class_call_models = {GI.IrGenerator: _irgen, ir.Concurrent: _concurrent_ctor, ir.Sequential: _sequential_ctor}
 
     c.setup = setup
+    # case-level: every visitor of the two code blocks delivers the event stream and records what the operation returned
+    c.models = [(ir._visit_referenced_objects, recording_model(True)), (ir.Context.__dict__["visit_objects"], recording_model(False)), (ir.CodeBlock.__dict__["visit_objects"], recording_model(False))]
+    c.custom_replay = "contracts.c07_always.replay_always_index"
     con.cases.append(c)
+
+
+_ALWAYS_INDEX_DESIGN = '''
+import re
+import cohdl
+from cohdl import Entity, Port, Bit, BitVector, Unsigned, std
+class AlwaysIndex(Entity):
+    clk = Port.input(Bit)
+    vec = Port.input(BitVector[4])
+    idx = Port.input(Unsigned[2])
+    c = Port.input(Bit)
+    o = Port.output(Bit)
+    def architecture(self):
+        @std.sequential(std.Clock(self.clk))
+        def proc():
+            with cohdl.always:
+                picked = self.vec[self.idx]
+                self.o <<= picked & self.c
+try:
+    t = std.VhdlCompiler.to_string(AlwaysIndex)
+    proc = re.search(r"process\\(.*?end process;", t, flags=re.S)
+    variables = re.findall(r"variable (\\w+)", proc.group(0)) if proc else []
+    outside = t.replace(proc.group(0), "") if proc else t
+    used = [v for v in variables if re.search(rf"\\b{v}\\b", outside)]
+    print("VARIABLES-USED-OUTSIDE", used)
+except AssertionError as e:
+    print("REJECTED")
+'''
+
+
+def replay_always_index(payload):
+    from contracts.c06_extra import _run_design
+
+    rc, out = _run_design(_ALWAYS_INDEX_DESIGN)
+    return {"reproduced": rc == 0 and "VARIABLES-USED-OUTSIDE [" in out and "VARIABLES-USED-OUTSIDE []" not in out,
+            "detail": "run-time indexed element inside `with cohdl.always:`: the index intermediate must be a signal in the hoisted block: " + out[-120:]}
